@@ -3,7 +3,7 @@
    SpecModel.public_str/base_str, Canon.canon (canonicalize_version with _TrimmedRelease).  Statements only. *)
 From Coq Require Import List Arith NArith Bool Lia.
 Import ListNotations.
-Require Import S1 VParse VComplete VTop VTop2 VDec Py VMeaning VCanon VCanon2 VCanon3 VCmp SpecModel SpecOps Order Canon VWf VKeyEq CanonLaws VInt VGnfParsed VObsModel VReading.
+Require Import S1 VParse VComplete VTop VTop2 VDec Py VMeaning VCanon VCanon2 VCanon3 VCmp SpecModel SpecOps Order Canon VWf VKeyEq CanonLaws VInt VGnfParsed VObsModel VReading VNumDefined.
 Open Scope N_scope.
 
 (* 1. an accepted string is read as the spelling it is: the scanner returns a parse tree whose rendering is the input,
@@ -147,6 +147,22 @@ Proof.
   split; [reflexivity|]. split; [reflexivity|]. apply Version_vstr, wf_trim, W.
 Qed.
 Print Assumptions C02_canon_is_trimmed_reparse.
+
+(* 11. no totalised default is ever read: on a well-formed spelling (everything the scanner returns, theorem 1) int() is defined on every digit group
+        whose value becomes a component - VMeaning.num's 0 on a non-number is unreachable; the implicit 0 of an absent number is the only default *)
+Theorem C02_numbers_defined sp : wf_spelling sp ->
+  (forall e, ep sp = Some e -> undec e = Some (num e)) /\ undec (rel0 sp) = Some (num (rel0 sp)) /\
+  Forall (fun d => undec d = Some (num d)) (rels sp) /\
+  (forall l, spre sp = Some l -> l_num l <> [] -> undec (l_num l) = Some (num (l_num l))) /\
+  (forall d, spost sp = Some (PostImplicit d) -> undec d = Some (num d)) /\
+  (forall l, spost sp = Some (PostWord l) -> l_num l <> [] -> undec (l_num l) = Some (num (l_num l))) /\
+  (forall l, sdev sp = Some l -> l_num l <> [] -> undec (l_num l) = Some (num (l_num l))).
+Proof. exact (numbers_defined sp). Qed.
+Print Assumptions C02_numbers_defined.
+Theorem C02_local_numbers_defined sp h t : wf_spelling sp -> sloc sp = Some (h, t) ->
+  Forall (fun raw => forallb is_digit raw = true -> undec raw = Some (num raw)) (h :: map snd t).
+Proof. exact (local_numbers_defined sp h t). Qed.
+Print Assumptions C02_local_numbers_defined.
 
 (* non-vacuity: " V1!02.0-PREVIEW_3.r.dev+Ab-01\n" is accepted and read as 1!2.0rc3.post0.dev0+ab.1 *)
 Example C02_nonvacuous :
